@@ -553,10 +553,12 @@ class Machine:
 
         if to_mode is UnitMode.RAW:
             self._reg.duration = units.time_raw(self._reg.duration)
-            self._reg.time = units.time_raw(self._reg.time)
+            if not isinstance(self._reg.time, TimePattern):
+                self._reg.time = units.time_raw(self._reg.time)
         elif from_mode is UnitMode.RAW:
             self._reg.duration = units.time_logical(self._reg.duration)
-            self._reg.time = units.time_logical(self._reg.time)
+            if not isinstance(self._reg.time, TimePattern):
+                self._reg.time = units.time_logical(self._reg.time)
 
     @staticmethod
     def _convert_units_fn(from_mode, to_mode):
